@@ -115,7 +115,7 @@ func findFlush(c *Ctx) *flushShape {
 						collect(body, depth)
 					}
 				case *ssa.Call:
-					if sc := x.Call.StaticCallee(); sc != nil && isOwn(c.P, sc) && !c.Facts.MayLoad[sc] {
+					if sc := ir.Callee(x.Call); sc != nil && isOwn(c.P, sc) && !c.Facts.MayLoad[sc] {
 						// helpers of the worker machinery (pool constructor and methods); never the tree code
 						if usesSync(sc) {
 							collect(sc, depth+1)
@@ -149,7 +149,7 @@ func findFlush(c *Ctx) *flushShape {
 		} else {
 			// a call in F to the helper that waits on every path
 			for _, ci := range CallsOf(F) {
-				if ci.Common().StaticCallee() == sh.waitFn && allReturnsPass(sh.waitFn, func(i ssa.Instruction) bool { return i == ssa.Instruction(sh.waitIn) }) {
+				if ir.Callee(ci.Common()) == sh.waitFn && allReturnsPass(sh.waitFn, func(i ssa.Instruction) bool { return i == ssa.Instruction(sh.waitIn) }) {
 					sh.wait = ci
 				}
 			}
@@ -170,7 +170,7 @@ func usesSync(fn *ssa.Function) bool {
 					return true
 				}
 			case ssa.CallInstruction:
-				if sc := x.Common().StaticCallee(); sc != nil && sc.Pkg != nil && sc.Pkg.Pkg.Path() == "sync" {
+				if sc := ir.Callee(x.Common()); sc != nil && sc.Pkg != nil && sc.Pkg.Pkg.Path() == "sync" {
 					return true
 				}
 				if b, ok := x.Common().Value.(*ssa.Builtin); ok && b.Name() == "close" {
@@ -239,7 +239,7 @@ func (sh *flushShape) eventsIn(fn *ssa.Function, pred func(ssa.Instruction) bool
 				continue
 			}
 			if call, ok := ins.(*ssa.Call); ok {
-				if sc := call.Call.StaticCallee(); sc != nil && sh.scope[sc] && sc != fn {
+				if sc := ir.Callee(call.Call); sc != nil && sh.scope[sc] && sc != fn {
 					if allReturnsPass(sc, func(i ssa.Instruction) bool {
 						if pred(i) {
 							return true
@@ -271,7 +271,7 @@ func (sh *flushShape) spawnsIn(fn *ssa.Function) []ssa.Instruction {
 					return true
 				}
 				if call, ok := ins.(*ssa.Call); ok {
-					if sc := call.Call.StaticCallee(); sc != nil && sh.scope[sc] && has(sc, seen) {
+					if sc := ir.Callee(call.Call); sc != nil && sh.scope[sc] && has(sc, seen) {
 						return true
 					}
 				}
@@ -284,7 +284,7 @@ func (sh *flushShape) spawnsIn(fn *ssa.Function) []ssa.Instruction {
 			if _, ok := ins.(*ssa.Go); ok {
 				out = append(out, ins)
 			} else if call, ok := ins.(*ssa.Call); ok {
-				if sc := call.Call.StaticCallee(); sc != nil && sh.scope[sc] && sc != fn && has(sc, map[*ssa.Function]bool{}) {
+				if sc := ir.Callee(call.Call); sc != nil && sh.scope[sc] && sc != fn && has(sc, map[*ssa.Function]bool{}) {
 					out = append(out, ins)
 				}
 			}
@@ -487,13 +487,7 @@ func runBARRIER(c *Ctx) {
 		}
 	}
 	// (7a) accesses of the cell outside goroutine bodies happen after Wait or before any spawn
-	isBody := map[*ssa.Function]bool{}
-	for _, b := range sh.bodies {
-		isBody[b] = true
-		for _, a := range allAnon(b) {
-			isBody[a] = true
-		}
-	}
+	isBody := sh.workerFns()
 	for fn := range sh.scope {
 		if isBody[fn] {
 			continue
@@ -541,6 +535,7 @@ func runBARRIER(c *Ctx) {
 	}
 	// (6)+(7b) in goroutine bodies
 	recorded := false
+	var ranCalls []*ssa.Call
 	for fn := range isBody {
 		for _, b := range fn.Blocks {
 			for _, ins := range b.Instrs {
@@ -579,21 +574,81 @@ func runBARRIER(c *Ctx) {
 					c.Violation(fn, P.InstrPos(ins), "error cell accessed without the mutex", "concurrent writers read/write the first-error variable without holding the lock (data race; an error can be lost)")
 				}
 				if st, ok := ins.(*ssa.Store); ok {
-					if call, isCall := ir.Origin(st.Val).(*ssa.Call); isCall && nilFactOn(b, st.Val, false) {
-						extra := false
+					// the recording may be conditioned only on nil tests (of the result, of the cell) and on
+					// the machinery's own "has a store failed already" helper
+					onlyNilTests := func(b *ssa.BasicBlock) bool {
 						for _, f := range ir.FactsAt(b) {
-							_, _, isNil := ir.NilTest(f.Cond)
-							if !isNil {
-								extra = true
+							if _, _, isNil := ir.NilTest(f.Cond); isNil {
+								continue
+							}
+							if call, ok := f.Cond.(*ssa.Call); ok {
+								if h := calleeOrClosure(&call.Call); h != nil && isBody[h] && returnsCellTest(h, isE) {
+									continue
+								}
+							}
+							return false
+						}
+						return true
+					}
+					if call, isCall := ir.Origin(st.Val).(*ssa.Call); isCall && nilFactOn(b, st.Val, false) {
+						if onlyNilTests(b) {
+							recorded = true
+							ranCalls = append(ranCalls, call)
+							c.OK(P.InstrPos(st), "(6) worker records the queued closure's error", "store of "+call.Name()+"'s non-nil result into the error cell", false)
+						}
+					} else if prm, isParam := st.Val.(*ssa.Parameter); isParam && onlyNilTests(b) {
+						// noteStoreError(cberr): the helper stores its parameter; the worker passes the non-nil result
+						idx := -1
+						for i, q := range fn.Params {
+							if q == prm {
+								idx = i
 							}
 						}
-						if !extra {
-							recorded = true
-							c.OK(P.InstrPos(st), "(6) worker records the queued closure's error", "store of "+call.Name()+"'s non-nil result into the error cell", false)
+						for wf := range isBody {
+							for _, ci := range CallsOf(wf) {
+								if calleeOrClosure(ci.Common()) != fn || idx < 0 {
+									continue
+								}
+								args := ci.Common().Args
+								ai := idx - (len(fn.Params) - len(args))
+								if ai < 0 || ai >= len(args) {
+									continue
+								}
+								if call, isCall := ir.Origin(args[ai]).(*ssa.Call); isCall && nilFactOn(ci.Block(), args[ai], false) && onlyNilTests(ci.Block()) {
+									recorded = true
+									ranCalls = append(ranCalls, call)
+									c.OK(P.InstrPos(ci), "(6) worker records the queued closure's error", "passes "+call.Name()+"'s non-nil result to "+ir.FuncName(fn)+", which stores it into the error cell", false)
+								}
+							}
 						}
 					}
 				}
 			}
+		}
+	}
+	// (9) the dequeued closure runs unless a store has already failed: its call is conditioned on nothing but
+	// nil tests of the error cell (directly or through the machinery's own helper)
+	for _, call := range ranCalls {
+		bad := ""
+		for _, f := range ir.FactsAt(call.Block()) {
+			if tv, _, isNil := ir.NilTest(f.Cond); isNil {
+				if ld, ok := tv.(*ssa.UnOp); ok && ld.Op == token.MUL && isE(ld.X) {
+					continue
+				}
+				bad = "a nil test of something other than the error cell"
+				continue
+			}
+			if hc, ok := f.Cond.(*ssa.Call); ok {
+				if h := calleeOrClosure(&hc.Call); h != nil && isBody[h] && returnsCellTest(h, isE) {
+					continue
+				}
+			}
+			bad = "a condition other than 'a store has already failed'"
+		}
+		if bad == "" {
+			c.OK(P.InstrPos(call), "(9) the queued closure is run unless a store already failed", "its call is conditioned only on the error cell being nil", false)
+		} else {
+			c.Violation(call.Parent(), P.InstrPos(call), "queued store skipped on another condition", "the worker skips a queued node write on "+bad+": flush then reports success (the error cell stays nil) although a node was never written")
 		}
 	}
 	if !recorded {
@@ -617,7 +672,7 @@ func runBARRIER(c *Ctx) {
 					case *ssa.Send:
 						return objKey(y.Chan) == ch
 					case *ssa.Defer:
-						if fn := y.Call.StaticCallee(); fn != nil {
+						if fn := ir.Callee(y.Call); fn != nil {
 							for _, bb := range fn.Blocks {
 								for _, ii := range bb.Instrs {
 									if s, ok := ii.(*ssa.Send); ok && objKey(s.Chan) == ch {
@@ -690,12 +745,39 @@ func (sh *flushShape) cellAfterWait(v ssa.Value, isE func(ssa.Value) bool) bool 
 	return false
 }
 
+// workerFns: the goroutine bodies, their nested closures, and the helpers of the flush machinery they call
+// (local closures such as noteStoreError, or pool methods): the code that runs concurrently with flush.
+func (sh *flushShape) workerFns() map[*ssa.Function]bool {
+	out := map[*ssa.Function]bool{}
+	var add func(fn *ssa.Function)
+	add = func(fn *ssa.Function) {
+		if fn == nil || out[fn] || !sh.scope[fn] || fn == sh.F {
+			return
+		}
+		out[fn] = true
+		for _, a := range fn.AnonFuncs {
+			// a closure defined inside a worker runs in it (defers) or is called by it
+			add(a)
+		}
+		for _, ci := range CallsOf(fn) {
+			if _, isGo := ci.(*ssa.Go); isGo {
+				continue
+			}
+			add(calleeOrClosure(ci.Common()))
+		}
+	}
+	for _, b := range sh.bodies {
+		add(b)
+	}
+	return out
+}
+
 // errKey: the writers' first-error object: an error-typed variable or field,
 // not local to the goroutine, that a goroutine body stores into.
 func (sh *flushShape) errKey() string {
 	ekey := ""
 	var bodies []*ssa.Function
-	for _, body := range sh.bodies {
+	for body := range sh.workerFns() {
 		bodies = append(bodies, body)
 	}
 	sort.Slice(bodies, func(i, j int) bool { return bodies[i].Pos() < bodies[j].Pos() })
@@ -711,4 +793,28 @@ func (sh *flushShape) errKey() string {
 		}
 	}
 	return ekey
+}
+
+// returnsCellTest: every return of h yields a nil test of the error cell (storeFailed()).
+func returnsCellTest(h *ssa.Function, isE func(ssa.Value) bool) bool {
+	rets := ir.Returns(h)
+	n := 0
+	for _, r := range rets {
+		if len(r.Block().Preds) == 0 && r.Block().Index != 0 {
+			continue // recover block
+		}
+		if len(r.Results) != 1 {
+			return false
+		}
+		tv, _, isNil := ir.NilTest(ir.ResolveCell(r.Results[0]))
+		if !isNil {
+			return false
+		}
+		ld, ok := tv.(*ssa.UnOp)
+		if !ok || ld.Op != token.MUL || !isE(ld.X) {
+			return false
+		}
+		n++
+	}
+	return n > 0
 }
